@@ -3,17 +3,20 @@
 
    The quantifier is RelGrammar.rfield restricted by RelGrammar.wf_rfield: the Debian Policy 7.1
    relationship grammar over arbitrary package names / versions / architecture / profile names
-   (any non-empty [A-Za-z0-9.+~-]+), the five operators, optional epoch, architecture lists and
+   (any non-empty [A-Za-z0-9.+~-]+), the five operators, optional epoch (then the version may contain
+   further colons), architecture lists and
    restriction formulas with or without "!", empty entries, a trailing comma, ${substitution:variables}
    where enabled, and an arbitrary run of SP / TAB / LF in every place where whitespace may stand.
    No bound on the number of entries, alternatives, terms or on any length: the proofs are
    inductions over the abstract field.
 
-   The reader is the model of the code WITH the proposed fix
-   proposed_fixes/C10-epoch-and-space-in-version.patch; for the code as it is, see
-   C10_prefix_epoch_refuted / C10_prefix_space_refuted below. *)
+   The reader is the model of the code as of /repo 4b18f7c, i.e. with the fixes this property
+   led to: 0eb8794 + c2fa7c8 + 4b18f7c (a version is the run of IDENT and COLON tokens: epoch,
+   further colons, empty parts -- the last outside this grammar), 43dd02f (whitespace before
+   ")"), 541b0f5 (architectures() keeps the "!").  For the code before them see C10_prefix_epoch_refuted,
+   C10_prefix_space_refuted and C10_prefix_arch_negation_refuted below. *)
 From V.model Require Import Base RelLex RelParse RelAcc RelGrammar.
-From V.model Require RelParsePre.
+From V.model Require RelParsePre RelLossy.
 From V.proofs Require Import RelGrammarLexP RelGrammarParseP RelGrammarAccP.
 
 (* 1. the token partition of a rendered well-formed field *)
@@ -31,17 +34,17 @@ Check C10_parse_tokens : forall allow (f : rfield), wf_rfield allow f = true ->
 Print Assumptions C10_parse_tokens.
 
 (* 3. the reader: no error, text back, and the accessors (entries / relations / name / archqual /
-   version / architectures / profiles / substvars) report exactly what was written -- except that
-   architectures() cannot express "!" (rcontent_drop_neg; see 5 and 6) *)
+   version / architectures / profiles / substvars) report exactly what was written, in the
+   accessors' own types (rcontent_acc: a negated architecture is the String "!name") *)
 Theorem C10_lossless : forall allow (f : rfield), wf_rfield allow f = true ->
   parse_relaxed (rrender f) allow = Ok (rtree_of f, 0) /\
   text (rtree_of f) = rrender f /\
-  racc (rtree_of f) = Ok (rcontent_drop_neg f).
+  racc (rtree_of f) = Ok (rcontent_acc f).
 Proof. intros allow f H. destruct (C10_lossless_all allow f H) as (_ & _ & A & B & C). auto. Qed.
 Check C10_lossless : forall allow (f : rfield), wf_rfield allow f = true ->
   parse_relaxed (rrender f) allow = Ok (rtree_of f, 0) /\
   text (rtree_of f) = rrender f /\
-  racc (rtree_of f) = Ok (rcontent_drop_neg f).
+  racc (rtree_of f) = Ok (rcontent_acc f).
 Print Assumptions C10_lossless.
 
 (* 4. the strict reader, Relations::from_str (no substitution variables) *)
@@ -52,64 +55,60 @@ Check C10_from_str : forall f : rfield, wf_rfield false f = true ->
   relations_from_str (rrender f) = Ok (rtree_of f).
 Print Assumptions C10_from_str.
 
-(* The full statement of the lossless clause: the accessors' result, read as content
-   (an architecture the accessor returns counts as not negated), IS the content. *)
-Definition C10_full : Prop :=
-  forall allow (f : rfield), wf_rfield allow f = true ->
-  exists a, parse_relaxed (rrender f) allow = Ok (rtree_of f, 0) /\
-            racc (rtree_of f) = Ok a /\ racc_view a = rcontent f.
-
-(* finding class arch-negation-dropped: the field contains a negated architecture *)
-Definition Known_arch_negation_dropped (f : rfield) : Prop := has_neg_arch f = true.
-
-(* 5. outside that class the full statement holds *)
+(* 5. The full statement of the lossless clause, for EVERY well-formed field: the accessors'
+   result, read back as content (racc_view: a returned architecture "!x" is the negated x), IS the
+   content -- entries, alternatives, names, qualifiers, operators, versions with epoch,
+   architecture lists with their negations, profile groups, substitution variables. *)
 Theorem C10_content : forall allow (f : rfield), wf_rfield allow f = true ->
-  ~ Known_arch_negation_dropped f ->
   exists a, parse_relaxed (rrender f) allow = Ok (rtree_of f, 0) /\
             racc (rtree_of f) = Ok a /\ racc_view a = rcontent f.
 Proof.
-  intros allow f H Hn. destruct (C10_lossless_all allow f H) as (_ & _ & A & _ & C).
-  exists (rcontent_drop_neg f). split; [exact A|]. split; [exact C|].
-  apply racc_view_noneg. unfold Known_arch_negation_dropped in Hn. destruct (has_neg_arch f); congruence.
+  intros allow f H. destruct (C10_lossless_all allow f H) as (_ & _ & A & _ & C).
+  exists (rcontent_acc f). split; [exact A|]. split; [exact C|]. apply (racc_view_content allow), H.
 Qed.
 Check C10_content : forall allow (f : rfield), wf_rfield allow f = true ->
-  ~ Known_arch_negation_dropped f ->
   exists a, parse_relaxed (rrender f) allow = Ok (rtree_of f, 0) /\
             racc (rtree_of f) = Ok a /\ racc_view a = rcontent f.
 Print Assumptions C10_content.
 
-(* 6. the class is necessary: "a [!b]" is well-formed, and architectures() yields ["b"] *)
+Definition C10_full : Prop :=
+  forall allow (f : rfield), wf_rfield allow f = true ->
+  exists a, parse_relaxed (rrender f) allow = Ok (rtree_of f, 0) /\
+            racc (rtree_of f) = Ok a /\ racc_view a = rcontent f.
+Theorem C10_full_holds : C10_full.
+Proof. exact C10_content. Qed.
+Check C10_full_holds : C10_full.
+Print Assumptions C10_full_holds.
+
+(* 6. Before /repo 541b0f5 architectures() returned the IDENT tokens only
+   (RelParsePre.relation_architectures_pre): for "a [!b]" it yields ["b"], today ["!b"]. *)
 Definition C10_neg_witness : rfield :=
   mk_rfield [] (IEntry (mk_rel [97%N] None None (Some (mk_group [32%N] [mk_term [] true [98%N]] [])) [] []) []) [].
-Theorem C10_arch_negation_witness :
-  wf_rfield false C10_neg_witness = true /\ Known_arch_negation_dropped C10_neg_witness /\
+Theorem C10_prefix_arch_negation_refuted :
+  wf_rfield false C10_neg_witness = true /\ has_neg_arch C10_neg_witness = true /\
   rrender C10_neg_witness = [97; 32; 91; 33; 98; 93]%N /\
-  exists a, racc (rtree_of C10_neg_witness) = Ok a /\ racc_view a <> rcontent C10_neg_witness.
-Proof.
-  split; [reflexivity|]. split; [reflexivity|]. split; [reflexivity|].
-  eexists. split; [vm_compute; reflexivity|]. vm_compute. discriminate.
-Qed.
-Check C10_arch_negation_witness :
-  wf_rfield false C10_neg_witness = true /\ Known_arch_negation_dropped C10_neg_witness /\
+  map (map RelParsePre.relation_architectures_pre) (map entry_relations (relations_entries (rtree_of C10_neg_witness)))
+    = [[Some [[98%N]]]] /\
+  map (map relation_architectures) (map entry_relations (relations_entries (rtree_of C10_neg_witness)))
+    = [[Some [[33; 98]%N]]] /\
+  map (map x_archs) (fst (rcontent C10_neg_witness)) = [[Some [(true, [98%N])]]].
+Proof. vm_compute. repeat split. Qed.
+Check C10_prefix_arch_negation_refuted :
+  wf_rfield false C10_neg_witness = true /\ has_neg_arch C10_neg_witness = true /\
   rrender C10_neg_witness = [97; 32; 91; 33; 98; 93]%N /\
-  exists a, racc (rtree_of C10_neg_witness) = Ok a /\ racc_view a <> rcontent C10_neg_witness.
-Print Assumptions C10_arch_negation_witness.
+  map (map RelParsePre.relation_architectures_pre) (map entry_relations (relations_entries (rtree_of C10_neg_witness)))
+    = [[Some [[98%N]]]] /\
+  map (map relation_architectures) (map entry_relations (relations_entries (rtree_of C10_neg_witness)))
+    = [[Some [[33; 98]%N]]] /\
+  map (map x_archs) (fst (rcontent C10_neg_witness)) = [[Some [(true, [98%N])]]].
+Print Assumptions C10_prefix_arch_negation_refuted.
 
-Theorem C10_full_refuted : ~ C10_full.
-Proof.
-  intros H. destruct (H false C10_neg_witness eq_refl) as (a & _ & Ha & Hv).
-  destruct C10_arch_negation_witness as (_ & _ & _ & a' & Ha' & Hv').
-  rewrite Ha in Ha'. injection Ha' as <-. exact (Hv' Hv).
-Qed.
-Check C10_full_refuted : ~ C10_full.
-Print Assumptions C10_full_refuted.
-
-(* 7. The code as it is in /repo before the proposed fix (model/RelParsePre.v) violates the
-   property on versions with an epoch and on whitespace before ")": three errors each. *)
+(* 7. The code before /repo 0eb8794 / 43dd02f (model/RelParsePre.v) violated the property on
+   versions with an epoch and on whitespace before ")": three errors each. *)
 Definition C10_epoch_witness : rfield :=       (* "a (>= 1:2.0)" *)
-  mk_rfield [] (IEntry (mk_rel [97%N] None (Some (mk_vclause [32%N] [] VGe [32%N] (Some [49%N]) [50; 46; 48]%N [])) None [] []) []) [].
+  mk_rfield [] (IEntry (mk_rel [97%N] None (Some (mk_vclause [32%N] [] VGe [32%N] (Some [49%N]) [50; 46; 48]%N [] [])) None [] []) []) [].
 Definition C10_space_witness : rfield :=       (* "a (>= 1 )" *)
-  mk_rfield [] (IEntry (mk_rel [97%N] None (Some (mk_vclause [32%N] [] VGe [32%N] None [49%N] [32%N])) None [] []) []) [].
+  mk_rfield [] (IEntry (mk_rel [97%N] None (Some (mk_vclause [32%N] [] VGe [32%N] None [49%N] [] [32%N])) None [] []) []) [].
 Theorem C10_prefix_epoch_refuted :
   wf_rfield false C10_epoch_witness = true /\
   rrender C10_epoch_witness = [97; 32; 40; 62; 61; 32; 49; 58; 50; 46; 48; 41]%N /\
@@ -136,16 +135,58 @@ Check C10_prefix_space_refuted :
             RelParse.parse (rrender C10_space_witness) false = Ok (rtree_of C10_space_witness, 0).
 Print Assumptions C10_prefix_space_refuted.
 
-(* 8. The lossy-reader clause.  The lossy reader (debian-control/src/lossy/relations.rs) is modelled
-   and proved in the cone of C14; here the clause is stated in full over any model of
-   lossy::Relations::from_str whose relations have the shape of lossy::Relation
-   (= RelAcc.relc: name, archqual, version, architectures, profiles).  Domain: well-formed
-   fields without substitution variables, newlines only around "," and "|", nothing between
-   ":" and the architecture qualifier (RelGrammar.lossy_dom).  NOT proved here; decided on every run
-   by the rel-doc stream (oracle: lossy result = lossless accessors, on the implementation). *)
+(* 8. The lossy-reader clause.  It is stated in full over any model of lossy::Relations::from_str
+   whose relations have the shape of lossy::Relation (= RelAcc.relc: name, archqual, version,
+   architectures as Strings with "!" for a negated one, profiles), and instantiated with the model
+   of the cone of C14 (coq/model/RelLossy.v, with its model of debversion).  Domain: well-formed
+   fields without substitution variables, newlines only around "," and "|", nothing between ":"
+   and the architecture qualifier (RelGrammar.lossy_dom).
+   NOT proved: C14's theorems are about text printed by Display (one layout); this clause needs the
+   lossy reader evaluated on every whitespace placement, through str::split(',') / trim / a second
+   lexer run per relation -- a development of the size of RelGrammarParseP.v.  It is decided on
+   every run by the rel-doc stream (oracle: lossy value = lossless accessors, on the
+   implementation; zero failures since /repo a2c6991, 7cd890b, 3e262bf), and C10_lossy_ex checks the
+   instance on concrete fields.  (RelLossy.v as merged does not yet contain /repo 3e262bf: on
+   "a (= 1 )" it yields Err 4 where the code now accepts; the examples avoid that slot.) *)
 Definition C10_lossy_full (lossy_relations_from_str : str -> res (list (list relc))) : Prop :=
   forall f : rfield, wf_rfield false f = true -> lossy_dom f = true ->
   exists es, lossy_relations_from_str (rrender f) = Ok es /\ map (map relc_view) es = fst (rcontent f).
+
+Definition vop_of_vc (c : RelLossy.vconstraint) : vop :=
+  match c with RelLossy.VC_ge => VGe | RelLossy.VC_le => VLe | RelLossy.VC_eq => VEq | RelLossy.VC_gt => VGt | RelLossy.VC_lt => VLt end.
+Definition bprofile_of_lossy (p : RelLossy.bprofile) : bprofile :=
+  match p with RelLossy.Enabled s => Enabled s | RelLossy.Disabled s => Disabled s end.
+Definition relc_of_lossy (r : RelLossy.relation RelLossy.dversion) : relc :=
+  mk_relc (RelLossy.r_name r) (RelLossy.r_archqual r)
+          (option_map (fun cv => (vop_of_vc (fst cv), RelLossy.dv_print (snd cv))) (RelLossy.r_version r))
+          (RelLossy.r_archs r) (map (map bprofile_of_lossy) (RelLossy.r_profiles r)).
+Definition lossy_model (s : str) : res (list (list relc)) :=
+  rmap (map (map relc_of_lossy)) (RelLossy.relations_from_str RelLossy.dv_parse s).
+Definition C10_lossy_RelLossy : Prop := C10_lossy_full lossy_model.
+
+(* the instance on two concrete fields:
+   "a (= 0:1)\n | b [!x y],\n"  and  "libc6:any (>= 1:2.0~rc1-1) [amd64 i386] <!nocheck> < cross !nocheck >\t, g++ (<< 4.9),," *)
+Definition C10_lossy_ex1 : rfield :=
+  mk_rfield [] (IEntry (mk_rel [97%N] None (Some (mk_vclause [32%N] [] VEq [32%N] (Some [48%N]) [49%N] [] [])) None [] [10; 32]%N)
+                       [([32%N], mk_rel [98%N] None None (Some (mk_group [32%N] [mk_term [] true [120%N]; mk_term [32%N] false [121%N]] [])) [] [])])
+            [([10%N], IEmpty)].
+Definition C10_lossy_ex2 : rfield :=
+  let sp := [32%N] in
+  let libc := [108; 105; 98; 99; 54]%N in let gpp := [103; 43; 43]%N in let any := [97; 110; 121]%N in
+  let amd := [97; 109; 100; 54; 52]%N in let i386 := [105; 51; 56; 54]%N in
+  let nocheck := [110; 111; 99; 104; 101; 99; 107]%N in let cross := [99; 114; 111; 115; 115]%N in
+  let r1 := mk_rel libc (Some (mk_qual [] [] any))
+                   (Some (mk_vclause sp [] VGe sp (Some [49%N]) [50; 46; 48; 126; 114; 99; 49; 45; 49]%N [] []))
+                   (Some (mk_group sp [mk_term [] false amd; mk_term sp false i386] []))
+                   [mk_group sp [mk_term [] true nocheck] []; mk_group sp [mk_term sp false cross; mk_term sp true nocheck] sp] [9%N] in
+  let r2 := mk_rel gpp None (Some (mk_vclause sp [] VLt sp None [52; 46; 57]%N [] [])) None [] [] in
+  mk_rfield [] (IEntry r1 []) [(sp, IEntry r2 []); ([], IEmpty); ([], IEmpty)].
+Example C10_lossy_ex :
+  (wf_rfield false C10_lossy_ex1 = true /\ lossy_dom C10_lossy_ex1 = true /\
+   exists es, lossy_model (rrender C10_lossy_ex1) = Ok es /\ map (map relc_view) es = fst (rcontent C10_lossy_ex1)) /\
+  (wf_rfield false C10_lossy_ex2 = true /\ lossy_dom C10_lossy_ex2 = true /\
+   exists es, lossy_model (rrender C10_lossy_ex2) = Ok es /\ map (map relc_view) es = fst (rcontent C10_lossy_ex2)).
+Proof. split; (split; [reflexivity|]; split; [reflexivity|]; eexists; split; vm_compute; reflexivity). Qed.
 
 (* Non-vacuity: a field using every construct and every whitespace slot is well-formed.
    " libc6:any (>= 1:2.0~rc1-1) [amd64 i386] <!nocheck> < cross\n !nocheck > | g++( <<4.9\n )|\n a : any\n ,\n ${misc:Depends} ,, g++( <<4.9\n )," *)
@@ -155,15 +196,15 @@ Definition C10_ex : rfield :=
   let amd := [97; 109; 100; 54; 52]%N in let i386 := [105; 51; 56; 54]%N in
   let nocheck := [110; 111; 99; 104; 101; 99; 107]%N in let cross := [99; 114; 111; 115; 115]%N in
   let r1 := mk_rel libc (Some (mk_qual [] [] any))
-                   (Some (mk_vclause sp [] VGe sp (Some [49%N]) [50; 46; 48; 126; 114; 99; 49; 45; 49]%N []))
+                   (Some (mk_vclause sp [] VGe sp (Some [49%N]) [50; 46; 48; 126; 114; 99; 49; 45; 49]%N [] []))
                    (Some (mk_group sp [mk_term [] false amd; mk_term sp false i386] []))
                    [mk_group sp [mk_term [] true nocheck] []; mk_group sp [mk_term sp false cross; mk_term nl true nocheck] sp] sp in
-  let r2 := mk_rel gpp None (Some (mk_vclause [] sp VLt [] None [52; 46; 57]%N nl)) None [] [] in
+  let r2 := mk_rel gpp None (Some (mk_vclause [] sp VLt [] None [52; 46; 57]%N [] nl)) None [] [] in
   let r3 := mk_rel [97%N] (Some (mk_qual sp sp any)) None None [] nl in
   mk_rfield sp (IEntry r1 [(sp, r2); (nl, r3)])
     [(nl, ISubst [109; 105; 115; 99]%N [[68; 101; 112; 101; 110; 100; 115]%N] sp); ([], IEmpty); (sp, IEntry r2 []); ([], IEmpty)].
 Example C10_ex_wf :
-  wf_rfield true C10_ex = true /\ has_neg_arch C10_ex = false /\
+  wf_rfield true C10_ex = true /\
   rrender C10_ex =
     [32; 108; 105; 98; 99; 54; 58; 97; 110; 121; 32; 40; 62; 61; 32; 49; 58; 50; 46; 48; 126; 114; 99; 49; 45; 49; 41;
      32; 91; 97; 109; 100; 54; 52; 32; 105; 51; 56; 54; 93; 32; 60; 33; 110; 111; 99; 104; 101; 99; 107; 62; 32; 60; 32;
@@ -173,9 +214,16 @@ Example C10_ex_wf :
   map (map x_name) (fst (rcontent C10_ex)) = [[[108; 105; 98; 99; 54]; [103; 43; 43]; [97]]; [[103; 43; 43]]]%N /\
   snd (rcontent C10_ex) = [[36; 123; 109; 105; 115; 99; 58; 68; 101; 112; 101; 110; 100; 115; 125]]%N.
 Proof. vm_compute. repeat split. Qed.
+(* a version with colons after the epoch, "a (= 0:09:09-s)" (the input that led to /repo c2fa7c8) *)
+Example C10_ex_colons :
+  let f := mk_rfield [] (IEntry (mk_rel [97%N] None (Some (mk_vclause [32%N] [] VEq [32%N] (Some [48%N]) [48; 57]%N [[48; 57; 45; 115]%N] [])) None [] []) []) [] in
+  wf_rfield false f = true /\
+  rrender f = [97; 32; 40; 61; 32; 48; 58; 48; 57; 58; 48; 57; 45; 115; 41]%N /\
+  map (map x_ver) (fst (rcontent f)) = [[Some (VEq, [48; 58; 48; 57; 58; 48; 57; 45; 115]%N)]].
+Proof. vm_compute. repeat split. Qed.
 (* a field without substitution variables, inside the lossy clause's domain *)
 Example C10_ex_strict :
-  let f := mk_rfield [] (IEntry (mk_rel [97%N] None (Some (mk_vclause [32%N] [] VEq [32%N] (Some [48%N]) [49%N] [32%N])) None [] [10; 32]%N)
+  let f := mk_rfield [] (IEntry (mk_rel [97%N] None (Some (mk_vclause [32%N] [] VEq [32%N] (Some [48%N]) [49%N] [] [32%N])) None [] [10; 32]%N)
                                [([32%N], mk_rel [98%N] None None None [] [])]) [([10; 32]%N, IEmpty)] in
   wf_rfield false f = true /\ lossy_dom f = true /\
   rrender f = [97; 32; 40; 61; 32; 48; 58; 49; 32; 41; 10; 32; 124; 32; 98; 44; 10; 32]%N.
